@@ -80,8 +80,21 @@ claim("C03", "other",
       "Compiler emits every call as call/jump/relocation. Construction/destruction are outside the property.",
       "effects contract closed over object-code and goto-binary call graphs", "DESIGN.md section 6 / C03")
 
+claim("C16", "proof",
+      "Scalars are PROVED over the full value domain (loop-free harnesses, every bit pattern of i c r h t f d m T F N I, NaN excluded): "
+      "sign(rtosc_arg_vals_cmp_single) == spec_sign and rtosc_arg_vals_eq_single == (spec_sign == 0), in both directions and across "
+      "different tags; the order laws (reflexive, antisymmetric, transitive, 0 iff equal) are proved of the spec and of the code's own "
+      "results on scalars. Composites are BOUNDED (listed separately in evidence): strings/blobs of 0..3 symbolic bytes incl. NULL "
+      "strings, arrays of 0..2 elements over all element-type pairs (thorough: all 120 pairs), lists of <= 3 expanded values with "
+      "range blocks (rep_num 1..3, with/without delta) compared with their expansion and re-compression (eq == 1, cmp == 0, same sign "
+      "against a third list), iteration yields the expansion, rtosc_avmessage of both forms byte-identical.",
+      "Trusted: CBMC + SAT back end, its memcmp/strcmp models, spec/cmp_spec.h. Default options only (tolerance 0); NaN excluded; no "
+      "nested arrays; no infinite ranges; start+j*delta stays inside the type. The bounded obligations say nothing beyond their bound.",
+      "CBMC loop-free full-domain proofs for scalars + bounded exhaustive obligations for composites, against an executable order spec",
+      "DESIGN.md section 6 / C16")
+
 _later = "check not built yet in this revision (planned, see DESIGN.md section 6)"
-for k in ("C05", "C16", "C17", "C18", "C19"):
+for k in ("C05", "C17", "C18", "C19"):
     NA[k] = _later
 NA["C04"] = "Dispatch, the perfect-hash construction and the callbacks are C++ over std::vector<Port>, std::string, std::function with range-for/lambdas; CBMC's C++ front end rejects the TU and has no contract syntax in C++ mode; the only C ingredient, rtosc_match, is decided under C05."
 NA["C09"] = "walk_ports/walk_ports_recurse/bundle_foreach/port_is_enabled take Ports&, iterate std::vector, call std::function ports and snprintf into the shared buffer; no C-extractable core carries the statement."
